@@ -880,6 +880,30 @@ func (lexer *Lexer) GetNextToken() (tok Token, err error) {
 	return tok, nil
 }
 
+// flushAtEnd is called by the parser when the available input
+// has ended at top level, outside of any bracket. An atom, operator
+// or line comment that was not followed by a delimiter is still
+// pending in the lexer; terminate it as a newline would, so that
+// the last token of a text is not lost. It reports whether a
+// token became available.
+func (lex *Lexer) flushAtEnd() (flushed bool, err error) {
+	switch lex.state {
+	case LexerNormal:
+		if lex.buffer.Len() == 0 {
+			return false, nil
+		}
+	case LexerBuiltinOperator, LexerFreshAssignOrColon, LexerFirstFwdSlash, LexerCommentLine:
+	default:
+		// inside a string, backtick string or block comment:
+		// nothing to terminate.
+		return false, nil
+	}
+	if err := lex.LexNextRune('\n'); err != nil {
+		return false, err
+	}
+	return len(lex.tokens) > 0, nil
+}
+
 func (lex *Lexer) PromoteNextStream() (ok bool) {
 	/*
 		Q("entering PromoteNextStream()!\n")
